@@ -63,15 +63,19 @@ type Term struct {
 
 // Ctx owns the hash-cons table.
 type Ctx struct {
-	tab   map[string]*Term
-	n     int
-	fresh int
-	True  *Term
-	False *Term
+	// FreshBase marks allocation-counter variables; OldRef marks references known to predate
+	// every allocation made during the analysed call (parameters). Used to decide ref equalities.
+	FreshBase map[int]bool
+	OldRef    map[int]bool
+	tab       map[string]*Term
+	n         int
+	fresh     int
+	True      *Term
+	False     *Term
 }
 
 func NewCtx() *Ctx {
-	c := &Ctx{tab: map[string]*Term{}}
+	c := &Ctx{tab: map[string]*Term{}, FreshBase: map[int]bool{}, OldRef: map[int]bool{}}
 	c.True = c.mk(&Term{Op: "true", S: Bool})
 	c.False = c.mk(&Term{Op: "false", S: Bool})
 	return c
@@ -90,6 +94,10 @@ func (c *Ctx) key(t *Term) string {
 		b.WriteString(t.Name)
 	case "extract", "zero_extend", "sign_extend":
 		fmt.Fprintf(&b, "%d,%d", t.I1, t.I2)
+	case "forall":
+		fmt.Fprintf(&b, "%s,%d,%d", t.Name, t.I1, t.I2)
+	case "app":
+		b.WriteString(t.Name)
 	}
 	for _, a := range t.Args {
 		fmt.Fprintf(&b, ",%d", a.id)
@@ -115,7 +123,7 @@ func (c *Ctx) mk(t *Term) *Term {
 			t.open = true
 		}
 	}
-	if t.Op == "forall" || t.Op == "exists" {
+	if t.Op == "forall" || t.Op == "exists" || t.Op == "lambda" {
 		// closed if body's only free bound vars are ours (approximation: we never nest with escaping vars
 		// except through explicit construction, in which case openFree recomputes)
 		t.open = c.hasFreeBVar(t.Args[0], t.Bound)
@@ -139,7 +147,7 @@ func (c *Ctx) hasFreeBVar(t *Term, bound []*Term) bool {
 			}
 			return true
 		}
-		if t.Op == "forall" || t.Op == "exists" {
+		if t.Op == "forall" || t.Op == "exists" || t.Op == "lambda" {
 			nb := append(append([]*Term{}, bound...), t.Bound...)
 			return rec(t.Args[0], nb)
 		}
@@ -322,6 +330,17 @@ func (c *Ctx) Eq(a, b *Term) *Term {
 	}
 	if a.IsConst() && b.IsConst() {
 		return c.BoolConst(a.V == b.V)
+	}
+	if a.S.Kind == KBV && a.S.W == 32 {
+		fa, fb := c.freshRef(a), c.freshRef(b)
+		if fa != nil && (c.OldRef[b.id] || b.IsConst() && b.V < 0x100000) || fb != nil && (c.OldRef[a.id] || a.IsConst() && a.V < 0x100000) {
+			return c.False
+		}
+		if fa != nil && fb != nil && fa == fb {
+			_, ka := splitAdd(a)
+			_, kb := splitAdd(b)
+			return c.BoolConst(ka == kb)
+		}
 	}
 	if a.S == Bool {
 		if a.IsTrue() {
@@ -813,9 +832,46 @@ func (c *Ctx) Concat(a, b *Term) *Term {
 
 // ---------- arrays
 
+// Lambda builds the array  (lambda v. body);  reads of it are beta-reduced by Select.
+func (c *Ctx) Lambda(v *Term, body *Term) *Term {
+	// (lambda v. select(a, v)) with a closed in v is a itself
+	if body.Op == "select" && body.Args[1] == v && !c.hasFreeBVarOf(body.Args[0], v) {
+		return body.Args[0]
+	}
+	t := c.mk(&Term{Op: "lambda", S: Array(v.S, body.S), Args: []*Term{body}, Bound: []*Term{v}})
+	return t
+}
+
+func (c *Ctx) hasFreeBVarOf(t, v *Term) bool {
+	if !t.open {
+		return false
+	}
+	seen := map[int]bool{}
+	var rec func(t *Term) bool
+	rec = func(t *Term) bool {
+		if t == v {
+			return true
+		}
+		if !t.open || seen[t.id] {
+			return false
+		}
+		seen[t.id] = true
+		for _, a := range t.Args {
+			if rec(a) {
+				return true
+			}
+		}
+		return false
+	}
+	return rec(t)
+}
+
 func (c *Ctx) Select(a, i *Term) *Term {
 	if a.S.Kind != KArray || a.S.Idx != i.S {
 		panic(fmt.Sprintf("select sort mismatch %s [%s]", a.S, i.S))
+	}
+	if a.Op == "lambda" {
+		return c.Subst(a.Args[0], map[*Term]*Term{a.Bound[0]: i})
 	}
 	// read-over-write with decidable index comparison
 	for a.Op == "store" {
@@ -868,6 +924,15 @@ func (c *Ctx) distinct(i, j *Term) bool {
 	return false
 }
 
+// freshRef returns the allocation-counter base of a freshly allocated reference (base or base+k).
+func (c *Ctx) freshRef(t *Term) *Term {
+	b, _ := splitAdd(t)
+	if c.FreshBase[b.id] {
+		return b
+	}
+	return nil
+}
+
 func splitAdd(t *Term) (*Term, uint64) {
 	if t.Op == "bvadd" && t.Args[1].IsConst() {
 		return t.Args[0], t.Args[1].V
@@ -906,6 +971,85 @@ func (c *Ctx) Forall(vars []*Term, body *Term) *Term {
 	}
 	return c.mk(&Term{Op: "forall", S: Bool, Args: []*Term{body}, Bound: vars})
 }
+
+// ForallRange is  forall v. lo <= v < hi ==> body  for constant lo, hi (signed 64-bit index);
+// it can later be expanded into the conjunction of its instances (ExpandRanges).
+func (c *Ctx) ForallRange(v *Term, lo, hi int, body *Term) *Term {
+	if body.IsTrue() || hi <= lo {
+		return c.True
+	}
+	if !c.hasFreeBVarOf(body, v) {
+		return body
+	}
+	return c.mk(&Term{Op: "forall", S: Bool, Args: []*Term{body}, Bound: []*Term{v}, Name: "range", I1: lo, I2: hi})
+}
+
+// ExpandRanges replaces every range-quantifier by the conjunction of its instances.
+func (c *Ctx) ExpandRanges(t *Term) *Term {
+	memo := map[int]*Term{}
+	var rec func(t *Term) *Term
+	rec = func(t *Term) *Term {
+		if len(t.Args) == 0 {
+			return t
+		}
+		if r, ok := memo[t.id]; ok {
+			return r
+		}
+		var r *Term
+		if t.Op == "forall" && t.Name == "range" {
+			body := rec(t.Args[0])
+			var cs []*Term
+			for k := t.I1; k < t.I2; k++ {
+				cs = append(cs, c.Subst(body, map[*Term]*Term{t.Bound[0]: c.Const(uint64(int64(k)), t.Bound[0].S.W)}))
+			}
+			r = c.And(cs...)
+		} else {
+			args := make([]*Term, len(t.Args))
+			ch := false
+			for i, a := range t.Args {
+				args[i] = rec(a)
+				if args[i] != a {
+					ch = true
+				}
+			}
+			r = t
+			if ch {
+				r = c.Rebuild(t, args)
+			}
+		}
+		memo[t.id] = r
+		return r
+	}
+	return rec(t)
+}
+
+// HasRangeQuant reports whether t contains a range-quantifier.
+func HasRangeQuant(ts ...*Term) bool {
+	seen := map[int]bool{}
+	var rec func(t *Term) bool
+	rec = func(t *Term) bool {
+		if seen[t.id] {
+			return false
+		}
+		seen[t.id] = true
+		if t.Op == "forall" && t.Name == "range" {
+			return true
+		}
+		for _, a := range t.Args {
+			if rec(a) {
+				return true
+			}
+		}
+		return false
+	}
+	for _, t := range ts {
+		if rec(t) {
+			return true
+		}
+	}
+	return false
+}
+
 func (c *Ctx) Exists(vars []*Term, body *Term) *Term {
 	if body.IsFalse() {
 		return c.False
@@ -989,7 +1133,12 @@ func (c *Ctx) Rebuild(t *Term, a []*Term) *Term {
 		return c.Store(a[0], a[1], a[2])
 	case "constarr":
 		return c.ConstArray(t.S, a[0])
+	case "lambda":
+		return c.Lambda(t.Bound[0], a[0])
 	case "forall":
+		if t.Name == "range" {
+			return c.ForallRange(t.Bound[0], t.I1, t.I2, a[0])
+		}
 		return c.Forall(t.Bound, a[0])
 	case "exists":
 		return c.Exists(t.Bound, a[0])
@@ -1012,9 +1161,10 @@ func bvLit(v uint64, w int) string {
 // sub-terms named by declared constants. gets lists terms whose values are requested
 // after check-sat.
 type Script struct {
-	Text     string
-	GetNames []string // label for each requested value, parallel to gets
-	HasQuant bool
+	Text      string
+	GetNames  []string // label for each requested value, parallel to gets
+	HasQuant  bool
+	HasLambda bool // uses z3's lambda array terms (cvc5 cannot read the script)
 }
 
 // ScriptAbstract renders a QF_BV over-approximation of the problem: every array read and every
@@ -1069,6 +1219,7 @@ func (c *Ctx) script(asserts []*Term, gets []*Term, logic string, produceModels 
 		return nil
 	}
 	named := map[int]string{}
+	sc0 := &Script{}
 	var b strings.Builder
 	if produceModels {
 		b.WriteString("(set-option :produce-models true)\n")
@@ -1108,6 +1259,47 @@ func (c *Ctx) script(asserts []*Term, gets []*Term, logic string, produceModels 
 		b.WriteByte('\n')
 	}
 	var pr func(t *Term) string
+	// prBinderBody prints the body of a binder with let-bindings for open sub-terms that occur
+	// more than once inside it (closed sub-terms are already named globally).
+	prBinderBody := func(body *Term) string {
+		cnt := map[int]int{}
+		var ord []*Term
+		var walk func(t *Term)
+		walk = func(t *Term) {
+			if !t.open || len(t.Args) == 0 {
+				return
+			}
+			cnt[t.id]++
+			if cnt[t.id] > 1 {
+				return
+			}
+			if t.Op == "forall" || t.Op == "exists" || t.Op == "lambda" {
+				ord = append(ord, t)
+				return // inner binders handle their own bodies
+			}
+			for _, a := range t.Args {
+				walk(a)
+			}
+			ord = append(ord, t)
+		}
+		walk(body)
+		var lets []string
+		var letIDs []int
+		for _, t := range ord {
+			if cnt[t.id] > 1 && t != body {
+				s := pr(t)
+				n := fmt.Sprintf("l%d", t.id)
+				lets = append(lets, fmt.Sprintf("(let ((%s %s)) ", n, s))
+				named[t.id] = n
+				letIDs = append(letIDs, t.id)
+			}
+		}
+		out := strings.Join(lets, "") + pr(body) + strings.Repeat(")", len(lets))
+		for _, id := range letIDs {
+			delete(named, id)
+		}
+		return out
+	}
 	pr = func(t *Term) string {
 		if n, ok := named[t.id]; ok {
 			return n
@@ -1121,8 +1313,12 @@ func (c *Ctx) script(asserts []*Term, gets []*Term, logic string, produceModels 
 			return "|" + t.Name + "|"
 		}
 		var as []string
-		for _, a := range t.Args {
-			as = append(as, pr(a))
+		if t.Op == "forall" || t.Op == "exists" || t.Op == "lambda" {
+			as = []string{prBinderBody(t.Args[0])}
+		} else {
+			for _, a := range t.Args {
+				as = append(as, pr(a))
+			}
 		}
 		switch t.Op {
 		case "extract":
@@ -1136,10 +1332,20 @@ func (c *Ctx) script(asserts []*Term, gets []*Term, logic string, produceModels 
 				return "|" + t.Name + "|"
 			}
 			return "(|" + t.Name + "| " + strings.Join(as, " ") + ")"
+		case "lambda":
+			sc0.HasLambda = true
+			v := t.Bound[0]
+			return fmt.Sprintf("(lambda ((|%s| %s)) %s)", v.Name, v.S, as[0])
 		case "forall", "exists":
 			var vs []string
 			for _, v := range t.Bound {
 				vs = append(vs, fmt.Sprintf("(|%s| %s)", v.Name, v.S))
+			}
+			if t.Op == "forall" && t.Name == "range" {
+				v := "|" + t.Bound[0].Name + "|"
+				w := t.Bound[0].S.W
+				return fmt.Sprintf("(forall (%s) (=> (and (bvsle %s %s) (bvslt %s %s)) %s))", strings.Join(vs, " "),
+					bvLit(uint64(int64(t.I1))&mask(w), w), v, v, bvLit(uint64(int64(t.I2))&mask(w), w), as[0])
 			}
 			return fmt.Sprintf("(%s (%s) %s)", t.Op, strings.Join(vs, " "), as[0])
 		}
@@ -1178,7 +1384,8 @@ func (c *Ctx) script(asserts []*Term, gets []*Term, logic string, produceModels 
 		fmt.Fprintf(&b, "(assert %s)\n", pr(a))
 	}
 	b.WriteString("(check-sat)\n")
-	sc := &Script{HasQuant: hasQ}
+	sc := sc0
+	sc.HasQuant = hasQ
 	if len(gets) > 0 {
 		b.WriteString("(get-value (")
 		for _, g := range gets {
